@@ -37,6 +37,8 @@ def parseAction (s0 : String) : Option Action :=
     | 'S', some k => if named then none else some (.sleep k)
     | 'O', some k => if named then none else some (.once k)
     | 'I', some _ => if named then none else some .libInit
+    | 'N', some _ => if named then none else some .getName
+    | 'X', some _ => if named then none else some .joinAll   -- aws_common_library_clean_up = join_all_managed + unregistering
     | _, _ => none
 
 def parseActions (l : List String) : Option (List Action) := l.mapM parseAction
@@ -202,11 +204,12 @@ def showEv : Ev → List String
   | .reg k c ok => [s!"P reg s{k} cb{c} rc={if ok then "OK" else "AWS_ERROR_THREAD_NOT_JOINABLE"}"]
   | .done k => [s!"P done s{k}"]
   | .cb o c on => [s!"P cb s{o} cb{c} on=s{on}"]
-  | .joinRet k b => [s!"P join s{k} by=s{b} rc=OK pre=JOINABLE post=JOIN_COMPLETED"]
-  | .joinSkip k b h =>
+  | .joinRet k b => [s!"P join s{k} by=s{b} rc=OK pre=JOINABLE post=JOIN_COMPLETED id=ok"]
+  | .joinSkip k b h st =>
     let n := match h with | .notCreated => "NOT_CREATED" | .joinable => "JOINABLE" | .managed => "MANAGED" | .joinCompleted => "JOIN_COMPLETED"
-    [s!"P join s{k} by=s{b} rc=OK pre={n} post={n}"]
-  | .joinFail k b e => [s!"P join s{k} by=s{b} rc={if e == 35 then "AWS_ERROR_THREAD_DEADLOCK_DETECTED" else "AWS_ERROR_THREAD_NOT_JOINABLE"} pre=JOINABLE post=JOINABLE"]
+    [s!"P join s{k} by=s{b} rc=OK pre={n} post={n} id={if st then "ok" else "-"}"]
+  | .joinFail k b e st => [s!"P join s{k} by=s{b} rc={if e == 35 then "AWS_ERROR_THREAD_DEADLOCK_DETECTED" else "AWS_ERROR_THREAD_NOT_JOINABLE"} pre=JOINABLE post=JOINABLE id={if st then "ok" else "-"}"]
+  | .name t b => [s!"P name s{t} {if b then "c20-thread" else "other"}"]
   | .count b n => [s!"P count s{b} {n}"]
   | .joinAllBegin b => [s!"P joinall begin s{b}"]
   | .joinAllRet _ ok _ => [s!"P joinall rc={if ok then "OK" else "ERR"}"]
